@@ -14,6 +14,7 @@ import (
 	"sync"
 	"sync/atomic"
 	"testing"
+	"verifharness/kit"
 )
 
 var fuzzExcluded sync.Map // tag -> *atomic.Int64
